@@ -18,6 +18,7 @@ ASSUMPTIONS = ["dense reference assembly written independently of cardillo/syste
                "systems are assembled with compute_consistent_initial_conditions=False (C16 covers the initial conditions)",
                "equality up to summation rounding 1e-12*(1+|value|) + 64 eps * sum|summands| per cell (blocks of one contribution may cancel, e.g. a force law between two points of one body)"]
 REQUIRED_MONITORS = ["scatter.compare", "partition", "reassemble", "coexistence", "recompose.compare", "registry.step"]
+FORMAT_TWIN = True          # ambient monitor: every System matrix is also requested in the other documented formats (vlib/formattwin.py)
 META = {
     "level_text": "Exploration: shadow-state monitors on the real System: a dense reference assembler over random systems, partition and re-assembly snapshots, and a registry model over random add/remove histories. Held on the systems and histories generated.",
     "level_note": "reference = independent dense scatter-sum; consistent initial conditions disabled in the scatter part.",
